@@ -159,4 +159,12 @@ def stepRef (F : Funs) (ps : List Phase) : RunState → List Ev × Outcome × Ru
 def stepFlat (F : Funs) (sched : Phase → List Nat) (ps : List Phase) : RunState → List Ev × Outcome × RunState :=
   stepWith (fun ph σ => { σ := flatExec F (flatStmts ph.ops) (sched ph) σ }) ps
 
+/-! ### a step that is cut short by an exception from a user function (C11)
+
+The statements `pre` (a prefix of the order the back end uses) have been executed when the exception
+leaves the step; `run_single_step`'s `finally` discards the per-step variables; the successor was
+already stored. -/
+def abortedStep (F : Funs) (ph : Phase) (pre : List Nat) (s : RunState) : RunState :=
+  ⟨persist (flatExec F (flatStmts ph.ops) pre (startStep s.σ)), ph.next⟩
+
 end Dagrt.StepLoop
